@@ -439,7 +439,7 @@ def suite_outbound(ctx):
         impls.append(out)
         pub = r['pub'] or {}
         exprs.append('show_ctx (outbound %s %s)' % (cctx(r['data'], r['vers']), cd(pub)))
-    res = core.coq_eval('c05out', IMPORTS, exprs)
+    res = core.coq_eval('c05out', IMPORTS, exprs, timeout=3000)
     nested = 0
     for r, impl, m in zip(cases, impls, res):
         ctx.count('outbound', freeze(r), nontrivial=bool(r['pub']))
@@ -476,7 +476,7 @@ def suite_merge(ctx):
         lc, rc = py_ctx(c['l']['data'], c['l']['vers']), py_ctx(c['r']['data'], c['r']['vers'])
         impls.append(cver.merge_context_by_version(lc, rc))
         exprs.append('show_ctx (merge_ctx %s %s)' % (cctx(c['l']['data'], c['l']['vers']), cctx(c['r']['data'], c['r']['vers'])))
-    res = core.coq_eval('c05merge', IMPORTS, exprs)
+    res = core.coq_eval('c05merge', IMPORTS, exprs, timeout=3000)
     kinds = {'dict-dict': 0, 'dict-scalar': 0, 'scalar-scalar': 0}
     for c, impl, m in zip(cases, impls, res):
         both = set(c['l']['data']) & set(c['r']['data'])
@@ -598,7 +598,7 @@ def suite_upstream(ctx):
     sizes = {}
     # corpus + histories: the parents of every join / successor of real fork/join histories
     hist = [copy.deepcopy(h) for h in CORPUS_HISTORIES]
-    for _ in range(ctx.n(60, 900)):
+    for _ in range(ctx.n(60, 500)):
         hist.append(gen_history(rng, typechange=rng.random() < 0.4, nmax=6))
     for tasks in hist:
         rows = run_history(tasks, random_order(rng))
@@ -612,15 +612,15 @@ def suite_upstream(ctx):
             mine = [(q, path, x, classify_stale(tasks, i, q, path)) for (ti, q, path, x) in reqs if ti == i]
             nperm += check_upstream_perms(ctx, 'upstream', ups, exprs, pending, {'history': tasks, 'task': i}, mine)
     # random stream (incl. odd keys, absent versions, versions of absent paths, "__task_execution")
-    for _ in range(ctx.n(60, 900)):
+    for _ in range(ctx.n(60, 500)):
         n = rng.choice([1, 2, 2, 3, 3, 4, 5])
         odd = rng.random() < 0.3
         ups = [gen_random_row(rng, odd) for _ in range(n)]
-        if n > 3 and not ctx.thorough() and rng.random() < 0.5:
+        if n > 3 and rng.random() < 0.5:
             ups = ups[:3]
         sizes[len(ups)] = sizes.get(len(ups), 0) + 1
         nperm += check_upstream_perms(ctx, 'upstream', ups, exprs, pending, {'rows': ups})
-    res = core.coq_eval('c05ups', IMPORTS, exprs)
+    res = core.coq_eval('c05ups', IMPORTS, exprs, chunk=200, timeout=3000)
     for (suite, rep, impl), m in zip(pending, res):
         ctx.count(suite, freeze(rep), nontrivial=True)
         ctx.cov['disagreements_checked'] += 1
@@ -662,7 +662,7 @@ def suite_final(ctx):
         impls.append(ctrl.evaluate_workflow_final_context())
         cases.append(batches)
         exprs.append('show_octx (final_context [%s])' % '; '.join('[%s]' % '; '.join(ctex(r) for r in b) for b in batches))
-    res = core.coq_eval('c05final', IMPORTS, exprs)
+    res = core.coq_eval('c05final', IMPORTS, exprs, timeout=3000)
     for c, impl, m in zip(cases, impls, res):
         ctx.count('final', freeze(c), nontrivial=len(c) > 1)
         ctx.cov['disagreements_checked'] += 1
@@ -692,7 +692,7 @@ def suite_view(ctx):
             impls.append(impl)
             exprs.append('(show_ovalue (view_lookup %s [%s]), view_has %s [%s])' % (
                 coq_str(k), '; '.join(cd(d) for d in dicts), coq_str(k), '; '.join(cd(d) for d in dicts)))
-    res = core.coq_eval('c05view', IMPORTS, exprs)
+    res = core.coq_eval('c05view', IMPORTS, exprs, timeout=3000)
     for (dicts, k), impl, m in zip(cases, impls, res):
         mm = core.re.match(r'\("(.*)"\s*,\s*(true|false)\)\s*$', m, flags=core.re.S)
         txt = mm.group(1).replace('""', '"')
@@ -931,7 +931,7 @@ def suite_get_publish(ctx):
     real_df()
     rng = ctx.rng
     cases = [copy.deepcopy(c) for c in CORPUS_PUBLISH]
-    for _ in range(ctx.n(250, 4000)):
+    for _ in range(ctx.n(250, 3000)):
         cases.append({'task': gen_task_publish(rng), 'state': rng.choice(['SUCCESS', 'SUCCESS', 'ERROR'])})
     exprs, impls = [], []
     spec_mut = 0
@@ -960,7 +960,7 @@ def suite_get_publish(ctx):
         for sig, missing in classify_dropped(t, state, got_br, got_gl).items():
             ctx.fail(sig, 'get_publish(%s) drops the declared variables %s' % (state, sorted(missing)),
                      {'kind': 'get_publish', 'task': t, 'yaml': text, 'state': state, 'missing': sorted(missing)})
-    res = core.coq_eval('c05gp', IMPORTS, exprs)
+    res = core.coq_eval('c05gp', IMPORTS, exprs, timeout=3000)
     shapes = {}
     for c, impl, m in zip(cases, impls, res):
         mj = json.loads(core.unquote(m))
@@ -1015,72 +1015,82 @@ def shift_values(d):
     return d + 'z'
 
 
-def suite_publish(ctx):
-    """publish_variables with the real YAQL/Jinja evaluators on fake rows and real parsed specs"""
+def raw_branch_clauses(t1_yaml, state):
+    """variable -> raw value for the branch variables the YAML of the task declares exactly once for `state`"""
+    tl = t1_yaml.get('publish' if state == 'SUCCESS' else 'publish-on-error') or {}
+    clauses = [tl]
+    for oc in ('on-complete', 'on-success' if state == 'SUCCESS' else 'on-error'):
+        c = t1_yaml.get(oc)
+        if isinstance(c, dict) and isinstance(c.get('publish'), dict):
+            clauses.append(c['publish'].get('branch') or {})
+    out = {}
+    for c in clauses:
+        for k, v in c.items():
+            out.setdefault(k, []).append(v)
+    return {k: v[0] for k, v in out.items() if len(v) == 1}
+
+
+def publish_once(ctx, ts, t1_yaml, state, in_ctx, env, wctx, inp, rep):
+    """one REAL publish_variables call on fresh fake rows + the immutability and fallback oracles"""
     data_flow, _ = real_df()
     from mistral import exceptions as exc
+    vers = {p: 1 for p in leaf_paths(in_ctx)}
+    wf_ex = mk_wf_ex(env, wctx, inp)
+    task_ex = O(id='tid', name='t1', state=state, in_context=py_ctx(in_ctx, vers), published={}, workflow_execution=wf_ex)
+    w = Watch(in_context=task_ex.in_context, input=wf_ex.input, params=wf_ex.params)
+    wc = Watch(context=wf_ex.context)
+    try:
+        data_flow.publish_variables(task_ex, ts)
+        impl = {'published': task_ex.published, 'wctx': wf_ex.context}
+    except (exc.MistralException,):
+        impl = 'error'
+    except Exception as e:  # not a declared evaluation error
+        impl = 'crash:%s' % type(e).__name__
+    ch = w.changed()
+    if ch:
+        ctx.fail('mutated:publish:%s' % ','.join(ch), 'publish_variables changed the stored %s' % ch, rep)
+    has_global = any(isinstance(t1_yaml.get(oc), dict) and 'global' in (t1_yaml[oc].get('publish') or {})
+                     for oc in ('on-complete', 'on-success', 'on-error'))
+    if impl != 'error' and not has_global and wc.changed():
+        ctx.fail('mutated:publish:wf-context', 'publish_variables without a global clause changed the workflow context', rep)
+    # oracle: a plain variable reference published at top level carries the value visible to the task:
+    # what it inherited, else workflow context (vars / global), else input
+    if isinstance(impl, dict) and isinstance(impl['published'], dict):
+        for var, raw in raw_branch_clauses(t1_yaml, state).items():
+            pe = surf_lookup(raw)
+            if pe and 'path' in pe and len(pe['path']) == 1 and pe['path'][0] not in ('__env',):
+                want = expected_var(pe['path'][0], in_ctx, wctx, inp)
+                if want[0] == 'val' and var in impl['published'] and impl['published'][var] != want[1]:
+                    ctx.fail('fallback:wrong-source', 'published %s=%r but the visible value of %s is %r' % (
+                        var, impl['published'][var], pe['path'][0], want[1]), rep)
+    return impl
+
+
+def suite_publish(ctx):
+    """publish_variables with the real YAQL/Jinja evaluators on fake rows and real parsed specs"""
     rng = ctx.rng
     exprs, impls, cases = [], [], []
     outcomes = {}
-    for n_case in range(ctx.n(250, 4000)):
+    for n_case in range(ctx.n(250, 3000)):
         if n_case < len(CORPUS_PUBLISH):
             t, state = copy.deepcopy(CORPUS_PUBLISH[n_case]['task']), CORPUS_PUBLISH[n_case]['state']
         else:
             t, state = gen_task_publish(rng), rng.choice(['SUCCESS', 'SUCCESS', 'ERROR'])
         in_ctx, env, wctx, inp = gen_env_ctx_input(rng)
-        vers = {p: 1 for p in leaf_paths(in_ctx)}
-        wf_spec, text = parse_wf({'type': 'direct', 'tasks': {'t1': task_yaml(t, rng)}})
+        t1_yaml = task_yaml(t, rng)
+        wf_spec, text = parse_wf({'type': 'direct', 'tasks': {'t1': t1_yaml}})
         ts = wf_spec.get_tasks()['t1']
-        wf_ex = mk_wf_ex(env, wctx, inp)
-        task_ex = O(id='tid', name='t1', state=state, in_context=py_ctx(in_ctx, vers), published={}, workflow_execution=wf_ex)
-        w = Watch(in_context=task_ex.in_context, input=wf_ex.input, params=wf_ex.params)
-        wc = Watch(context=wf_ex.context)
-        try:
-            data_flow.publish_variables(task_ex, ts)
-            impl = {'published': task_ex.published, 'wctx': wf_ex.context}
-        except (exc.MistralException,) as e:
-            impl = 'error'
-        except Exception as e:  # not a declared evaluation error
-            impl = 'crash:%s' % type(e).__name__
-        rep = {'kind': 'publish', 'yaml': text, 'state': state, 'in_context': in_ctx, 'env': env, 'wf_context': wctx, 'input': inp}
-        ch = w.changed()
-        if ch:
-            ctx.fail('mutated:publish:%s' % ','.join(ch), 'publish_variables changed the stored %s' % ch, rep)
         tl, oc, oncl = model_args(t, state)
-        br, gl = declared_vars(t, state)
-        if impl != 'error' and not gl and wc.changed():
-            ctx.fail('mutated:publish:wf-context', 'publish_variables without a global clause changed the workflow context', rep)
-        # oracle: fallback order for plain variable references published at top level
-        if isinstance(impl, dict) and isinstance(impl['published'], dict):
-            ps_now = ts.get_publish(state)
-            for var, raw in (((ps_now.get_branch() if ps_now else None) or {}).items()):
-                pe = surf_lookup(raw)
-                if pe and 'path' in pe and len(pe['path']) == 1 and pe['path'][0] not in ('__env',):
-                    want = expected_var(pe['path'][0], in_ctx, wctx, inp)
-                    if want[0] == 'val' and var in impl['published'] and impl['published'][var] != want[1]:
-                        ctx.fail('fallback:wrong-source', 'published %s=%r but the visible value of %s is %r' % (
-                            var, impl['published'][var], pe['path'][0], want[1]), rep)
-        impls.append(impl)
-        cases.append(rep)
-        exprs.append('show_pubres (publish_variables "tid" "t1" %s %s %s %s %s %s %s)' % (
-            cd(in_ctx), cd(env), cd(wctx), cd(inp), cpd(tl), cops(oc), cops(oncl)))
         # the SAME spec object serves the next execution of the task (loops, other workflow runs through
         # the spec cache): a second evaluation under other data must not see anything of the first one
-        in_ctx2 = shift_values(in_ctx)
-        wf_ex2 = mk_wf_ex(env, wctx, inp)
-        task_ex2 = O(id='tid', name='t1', state=state, in_context=py_ctx(in_ctx2, vers), published={}, workflow_execution=wf_ex2)
-        try:
-            data_flow.publish_variables(task_ex2, ts)
-            impl2 = {'published': task_ex2.published, 'wctx': wf_ex2.context}
-        except (exc.MistralException,):
-            impl2 = 'error'
-        except Exception as e:
-            impl2 = 'crash:%s' % type(e).__name__
-        impls.append(impl2)
-        cases.append(dict(rep, in_context=in_ctx2, second_call_on_same_spec=True))
-        exprs.append('show_pubres (publish_variables "tid" "t1" %s %s %s %s %s %s %s)' % (
-            cd(in_ctx2), cd(env), cd(wctx), cd(inp), cpd(tl), cops(oc), cops(oncl)))
-    res = core.coq_eval('c05pub', IMPORTS, exprs)
+        for k, ic in enumerate((in_ctx, shift_values(in_ctx))):
+            rep = {'kind': 'publish', 'yaml': text, 'state': state, 'in_context': in_ctx, 'env': env, 'wf_context': wctx, 'input': inp,
+                   'evaluation_on_same_spec': k + 1}
+            impls.append(publish_once(ctx, ts, copy.deepcopy(t1_yaml), state, ic, env, wctx, inp, rep))
+            cases.append(dict(rep, in_context_used=ic))
+            exprs.append('show_pubres (publish_variables "tid" "t1" %s %s %s %s %s %s %s)' % (
+                cd(ic), cd(env), cd(wctx), cd(inp), cpd(tl), cops(oc), cops(oncl)))
+    res = core.coq_eval('c05pub', IMPORTS, exprs, timeout=3000)
     for rep, impl, m in zip(cases, impls, res):
         mj = json.loads(core.unquote(m))
         if mj == 'nothing':
@@ -1104,7 +1114,7 @@ def suite_output_vars(ctx):
     from mistral import exceptions as exc
     rng = ctx.rng
     exprs, impls, cases = [], [], []
-    for _ in range(ctx.n(250, 4000)):
+    for _ in range(ctx.n(250, 2500)):
         in_ctx, env, wctx, inp = gen_env_ctx_input(rng)
         which = rng.choice(['output', 'output', 'vars'])
         spec = gen_pd(rng, VARS + ['o'], 0 if which == 'output' else 1, 3)
@@ -1150,7 +1160,7 @@ def suite_output_vars(ctx):
             exprs.append('show_ovalue (workflow_output %s %s %s %s %s)' % (cpd(spec), cd(in_ctx), cd(env), cd(wctx), cd(inp)))
         else:
             exprs.append('show_ovalue (option_map VDict (add_vars %s %s %s %s))' % (cpd(spec), cd(env), cd(wctx), cd(inp)))
-    res = core.coq_eval('c05outv', IMPORTS, exprs)
+    res = core.coq_eval('c05outv', IMPORTS, exprs, timeout=3000)
     for rep, impl, m in zip(cases, impls, res):
         txt = core.unquote(m)
         mm = ('error',) if txt == 'absent' else ('val', json.loads(txt))
@@ -1210,7 +1220,7 @@ def suite_call_site_views(ctx):
                      'show_ovalue (view_lookup "k" (timeout_view %s %s %s)), '
                      'show_ovalue (view_lookup "k" (next_view "tid" "t1" %s %s %s %s)))' % (
                          e, a[2], a[3], a[4], a[5], a[0], a[1], e, a[4], a[5], a[3], a[4], a[5], a[1], e, a[4], a[5]))
-    res = core.coq_eval('c05views', IMPORTS, exprs)
+    res = core.coq_eval('c05views', IMPORTS, exprs, timeout=3000)
     for rep, impl, m in zip(cases, impls, res):
         vals = [x.replace('""', '"') for x in core.re.findall(r'"((?:[^"]|"")*)"', m)]
         mm = [('absent',) if x == 'absent' else ('val', json.loads(x)) for x in vals]
@@ -1378,7 +1388,7 @@ def suite_e2e(ctx):
     rng = ctx.rng
     stats = {}
     hist = [copy.deepcopy(h) for h in CORPUS_HISTORIES]
-    for _ in range(ctx.n(8, 100)):
+    for _ in range(ctx.n(8, 80)):
         hist.append(gen_history(rng, typechange=rng.random() < 0.3, nmax=6))
     runs = 0
     for hi, tasks in enumerate(hist):
@@ -1534,6 +1544,17 @@ def replay(obj):
     elif kind == 'e2e-publish':
         print(r['yaml'])
         check_e2e_publish(ctx, r['name'], untuple_task(r['task']), r['driver_seed'], ctx.rng)
+    elif kind == 'publish':
+        import yaml
+        from mistral.lang import parser as spec_parser
+        print(r['yaml'])
+        ts = spec_parser.get_workflow_list_spec_from_yaml(r['yaml'], validate=False).get_workflows()[0].get_tasks()['t1']
+        t1_yaml = yaml.safe_load(r['yaml'])['wf']['tasks']['t1']
+        ic = r['in_context']
+        for k in range(r.get('evaluation_on_same_spec', 1)):
+            impl = publish_once(ctx, ts, copy.deepcopy(t1_yaml), r['state'], ic, r['env'], r['wf_context'], r['input'], r)
+            print('evaluation %d under in_context=%r -> %r' % (k + 1, ic, impl))
+            ic = shift_values(r['in_context'])
     else:
         print(json.dumps(obj, indent=1, default=str)[:4000])
         print('(this kind of record is informative: re-run ./check C05 to re-evaluate it)')
